@@ -4,6 +4,7 @@ import (
 	"errors"
 	"fmt"
 	"os"
+	"sort"
 	"path/filepath"
 	"strings"
 
@@ -186,13 +187,22 @@ var parkIDs = map[string][]string{
 	"dictscan": {"index.kvstore.regexp.afterSnapshot", "index.kvstore.like.afterSnapshot"},
 	"inverted": {"index.inverted.afterSnapshot"},
 	"forward":  {"index.forward.afterSnapshot"},
+	"grouping": {"index.forward.grouping.afterSnapshot"},
+	"collect":  {"index.kvstore.collect.afterSnapshot"},
+}
+
+// parkKeys: the oracle key of a wrong answer of a query parked at the point
+var parkKeys = map[string]string{
+	"dictfind": "parked-reader-misses-flushed-batch", "dictscan": "parked-reader-misses-flushed-batch",
+	"inverted": "parked-reader-misses-flushed-batch", "forward": "parked-reader-misses-flushed-batch",
+	"grouping": "parked-grouping-misses-flushed-batch", "collect": "parked-collect-misses-flushed-batch",
 }
 
 // queryParked: reader ‖ flusher. A single-atom query (no group by) is parked at the first yield point
 // of `point` it reaches while the placement ops `places` run to completion (on the same goroutine: the
 // reader holds no lock there), then resumes. Every series written before the query started must still
 // be found. If the query never reaches the point, it is an ordinary query followed by the ops.
-func (d *dbt) queryParked(point, name string, cond stmt.Expr, places []string) {
+func (d *dbt) queryParked(point, name string, cond stmt.Expr, places []string, groupBy ...string) {
 	toks, ok := condTokens(cond)
 	if !ok {
 		return
@@ -221,14 +231,22 @@ func (d *dbt) queryParked(point, name string, cond stmt.Expr, places []string) {
 			outs = append(outs, d.doPlace(p))
 		}
 	})
-	res := d.e.query(nsName, name, cond, nil)
+	gb := "-"
+	if len(groupBy) > 0 {
+		hs := make([]string, len(groupBy))
+		for i, k := range groupBy {
+			hs[i] = hx(k)
+		}
+		gb = strings.Join(hs, ",")
+	}
+	res := d.e.query(nsName, name, cond, groupBy)
 	verifhook.Set(nil)
 	if fired == "" {
 		d.c.Branch("parked/not-reached-" + point)
 		if !d.silent {
-			d.c.Op("q "+metricTok(name)+" - "+toks, res.line(nil))
+			d.c.Op("q "+metricTok(name)+" "+gb+" "+toks, res.line(groupBy))
 		}
-		d.oracle(name, cond, nil, &res)
+		d.oracle(name, cond, groupBy, &res)
 		for _, p := range places {
 			d.place(p)
 		}
@@ -241,9 +259,111 @@ func (d *dbt) queryParked(point, name string, cond stmt.Expr, places []string) {
 		}
 	}
 	if !d.silent {
-		d.c.Op("qpark "+point+" "+metricTok(name)+" - | "+strings.Join(places, ",")+" | "+toks, res.line(nil))
+		d.c.Op("qpark "+point+" "+metricTok(name)+" "+gb+" | "+strings.Join(places, ",")+" | "+toks, res.line(groupBy))
 	}
-	d.parkedAt, d.parkedOps = fired, strings.Join(places, ",")
-	d.oracle(name, cond, nil, &res)
-	d.parkedAt, d.parkedOps = "", ""
+	d.parkedAt, d.parkedOps, d.parkedKey = fired, strings.Join(places, ","), parkKeys[point]
+	d.oracle(name, cond, groupBy, &res)
+	d.parkedAt, d.parkedOps, d.parkedKey = "", "", ""
+}
+
+// parkedDirect: the three snapshot+memory readers that no tag query of this area goes through —
+// GetValues (FindTagValueIDsForTag), Suggest (SuggestTagValues), invertedIndex.getSeriesIDs
+// (GetSeriesIDsForMetric) — called directly, parked at their yield point while `places` run.
+// Implementation-side oracle only; the placement ops are mirrored to the model afterwards.
+func (d *dbt) parkedDirect(kind, name, key string, places []string) {
+	id := map[string]string{"values": "index.kvstore.values.afterSnapshot", "suggest": "index.kvstore.suggest.afterSnapshot",
+		"allseries": "index.inverted.get.afterSnapshot"}[kind]
+	recs := d.series[name]
+	if recs == nil {
+		return
+	}
+	metricID, err := d.e.meta.GetMetricID(nsName, name)
+	if err != nil {
+		return
+	}
+	schema, err := d.e.meta.GetSchema(metricID)
+	if err != nil || schema == nil {
+		return
+	}
+	tm, ok := schema.TagKeys.Find(key)
+	if !ok && kind != "allseries" {
+		return
+	}
+	fired := false
+	var outs []string
+	verifhook.Set(func(y string) {
+		if fired || y != id {
+			return
+		}
+		fired = true
+		for _, p := range places {
+			outs = append(outs, d.doPlace(p))
+		}
+	})
+	var got, want []string
+	func() {
+		defer func() {
+			verifhook.Set(nil)
+			if r := recover(); r != nil {
+				d.c.Fail("panic", fmt.Sprintf("parked %s panicked: %v", kind, r))
+			}
+		}()
+		switch kind {
+		case "values":
+			ids, err := d.e.meta.FindTagValueIDsForTag(tm.ID)
+			if err != nil {
+				got = []string{"err " + err.Error()}
+				return
+			}
+			names := map[uint32]string{}
+			_ = d.e.meta.CollectTagValues(tm.ID, ids.Clone(), names)
+			for _, v := range names {
+				got = append(got, v)
+			}
+		case "suggest":
+			got, _ = d.e.meta.SuggestTagValues(tm.ID, "", 100000)
+		case "allseries":
+			bm, err := d.e.idx.GetSeriesIDsForMetric(metricID)
+			if err != nil {
+				got = []string{"err " + err.Error()}
+				return
+			}
+			for _, s := range bm.ToArray() {
+				got = append(got, fmt.Sprintf("%08d", s))
+			}
+		}
+	}()
+	seen := map[string]bool{}
+	for sid, rec := range recs {
+		if kind == "allseries" {
+			want = append(want, fmt.Sprintf("%08d", sid))
+		} else if v, has := rec.tags[key]; has && !seen[v] {
+			seen[v] = true
+			want = append(want, v)
+		}
+	}
+	sort.Strings(got)
+	sort.Strings(want)
+	if fired {
+		d.c.Branch("parked/" + kind)
+		for i, p := range places {
+			if !d.silent {
+				d.c.Op(p, outs[i])
+			}
+		}
+	} else {
+		d.c.Branch("parked/not-reached-" + kind)
+		for _, p := range places {
+			d.place(p)
+		}
+	}
+	if strings.Join(got, "\x00") != strings.Join(want, "\x00") {
+		fk := kind + "-ne-written"
+		if fired {
+			fk = "parked-" + kind + "-misses-flushed-batch"
+		}
+		d.c.Fail(fk, fmt.Sprintf("%s of %s.%s (parked=%v while %v ran): got %d entries, written %d", kind, name, key, fired, places, len(got), len(want)))
+	} else {
+		d.c.NonTrivial()
+	}
 }
